@@ -3,7 +3,8 @@ CLAIMED = True
 
 CFG = dict(
     rule="each case = a prepared scripted source (real AnySource/PrepareRun, 1..3 channels) + a history of 1..60 ops: ~50% blocks through the "
-         "real ProcessSegments carrying 0..40 external-trigger row counts (increasing, with extreme values 0, -1, +-2^62) and a dropped-frame "
+         "real ProcessSegments carrying 0..40 (12% of the cases: 1..600, several such batches per run, so that the buffered file content crosses "
+         "the 4096-byte writer buffer at varying alignments; 4% of the cases: 150..450 ops, mostly blocks with dropped frames) external-trigger row counts (increasing, with extreme values 0, -1, +-2^62) and a dropped-frame "
          "count (0, 1..99999999, negative) at first frames 0 .. 2^40; ~24% state labels through the real SourceControl.SetExperimentStateLabel "
          "(WaitForError), as 'UNPAUSE label', or (45% of them) through the exported AnySource.SetExperimentStateLabel with a caller-chosen time "
          "stamp that is earlier than / equal to / later than the previous one and than the clock-stamped lines (2001, 2096, 0, 1) (labels incl. spaces, commas, '#', the words START/STOP/PAUSE, empty, and 5% containing \\n / \\r); "
